@@ -13,7 +13,9 @@ import (
 	"sort"
 	"strings"
 	"sync"
+	"time"
 
+	dtpb "github.com/google/fhir/go/proto/google/fhir/proto/r4/core/datatypes_go_proto"
 	"github.com/verily-src/fhirpath-go/fhirpath"
 	"github.com/verily-src/fhirpath-go/fhirpath/patch"
 	"github.com/verily-src/fhirpath-go/fhirpath/zzverif/lib"
@@ -80,6 +82,62 @@ var opaquePool = []string{
 	"Patient.id.length() implies Patient.active",
 }
 
+// patchPool: FHIRPatch operations run through ONE shared compiled
+// patch.Expression, each on the calling goroutine's private clone of the
+// resource. Program number 200+j; judged like the uninterpreted programs (the
+// patched resource is a function of (program, resource)).
+type patchProg struct {
+	op   string
+	path string
+}
+
+var patchPool = []patchProg{
+	{"replace", "Patient.active"},
+	{"delete", "Patient.name.given[0]"},
+	{"replace", "Patient.name[0].family"},
+	{"add", "Patient.name[0]"},
+	{"insert", "Patient.name[0].given"},
+	{"delete", "Patient.name.where(family = 'F2').given.first()"},
+}
+
+func runPatch(pe *patch.Expression, pp patchProg, res proto.Message, eo []fhirpath.EvaluateOption) lib.Outcome {
+	var out lib.Outcome
+	rep := lib.Safe(lib.DefaultDeadline, func() {
+		r := res.(lib.Resource)
+		var err error
+		switch pp.op {
+		case "replace":
+			if strings.HasSuffix(pp.path, "active") {
+				err = pe.Replace(r, &dtpb.Boolean{Value: false}, eo...)
+			} else {
+				err = pe.Replace(r, &dtpb.String{Value: "Zed"}, eo...)
+			}
+		case "delete":
+			err = pe.Delete(r, eo...)
+		case "add":
+			err = pe.Add(r, "given", &dtpb.String{Value: "Added"}, eo...)
+		case "insert":
+			err = pe.Insert(r, &dtpb.String{Value: "Ins"}, 0, eo...)
+		}
+		js, merr := lib.MarshalResource(res)
+		if merr != nil {
+			js = []byte("unmarshalable: " + merr.Error())
+		}
+		k := "ok"
+		if err != nil {
+			k = "err"
+		}
+		out = lib.Outcome{"k": k, "items": string(js)}
+	})
+	if rep.Timeout {
+		return lib.TimeoutOutcome()
+	}
+	if rep.Panic != "" {
+		return lib.PanicOutcome(rep)
+	}
+	return out
+}
+
 type event struct {
 	K    string      `json:"k"`
 	G    int         `json:"g"`
@@ -104,6 +162,8 @@ type sharedExpr struct {
 	call   ccall
 	expr   *fhirpath.Expression
 	opaque bool
+	pexpr  *patch.Expression // a shared FHIRPatch expression (then expr is nil)
+	pprog  patchProg
 }
 
 func hashOutcome(out lib.Outcome) string {
@@ -155,11 +215,15 @@ func runStressChild(cfgPath, outPath string) {
 	// ---- set-up phase (goroutine 0)
 	setup := &glog{g: 0}
 	shared := []*sharedExpr{}
-	mi, oi := 0, 0
+	mi, oi, pi := 0, 0, 0
 	for len(shared) < cfg.E && (mi < len(menu.Shared) || oi < len(opaquePool)) {
 		if len(shared)%2 == 0 && mi < len(menu.Shared) || oi >= len(opaquePool) {
 			shared = append(shared, &sharedExpr{call: menu.Shared[mi]})
 			mi++
+		} else if len(shared)%4 == 3 && pi < len(patchPool) {
+			pi++
+			pp := patchPool[pi-1]
+			shared = append(shared, &sharedExpr{opaque: true, pprog: pp, call: ccall{API: "patch", Opts: []copt{}, Prog: []node{{N: "opaque", K: 200 + pi}}, Eid: 300 + pi, Text: pp.path}})
 		} else {
 			oi++
 			shared = append(shared, &sharedExpr{opaque: true, call: ccall{API: "fhirpath", Opts: []copt{}, Prog: []node{{N: "opaque", K: oi}}, Eid: 100 + oi, Text: opaquePool[oi-1]}})
@@ -167,18 +231,34 @@ func runStressChild(cfgPath, outPath string) {
 	}
 	for _, s := range shared {
 		setup.add(event{K: "cb", Call: s.call})
-		e, err := fhirpath.Compile(s.call.Text, append(scaffold(nil, 0), modelCompileOpts(s.call.Opts, s.call.Eid)...)...)
-		if err != nil {
-			lib.Fatal("shared expression %q does not compile: %v", s.call.Text, err)
+		if s.call.API == "patch" {
+			pe, err := patch.Compile(s.call.Text)
+			if err != nil {
+				lib.Fatal("shared patch expression %q does not compile: %v", s.call.Text, err)
+			}
+			s.pexpr = pe
+		} else {
+			e, err := fhirpath.Compile(s.call.Text, append(scaffold(nil, 0), modelCompileOpts(s.call.Opts, s.call.Eid)...)...)
+			if err != nil {
+				lib.Fatal("shared expression %q does not compile: %v", s.call.Text, err)
+			}
+			s.expr = e
 		}
-		s.expr = e
 		setup.add(event{K: "ce", Out: "ok"})
 	}
 	doEval := func(l *glog, s *sharedExpr, e *fhirpath.Expression, eid, r int, eo []eopt) {
 		call := map[string]any{"eid": eid, "r": r, "opts": eo}
 		begin := event{K: "eb", Call: call}
 		l.add(begin)
-		out, t0, t1 := evalOutcome(forest, e, resOf(r), realEvalOpts(eo), lib.DefaultDeadline)
+		var out lib.Outcome
+		var t0, t1 inst
+		if s != nil && s.pexpr != nil {
+			t0 = bracketStart(time.Now())
+			out = runPatch(s.pexpr, s.pprog, proto.Clone(pats[r-1]), realEvalOpts(eo))
+			t1 = bracketEnd(time.Now())
+		} else {
+			out, t0, t1 = evalOutcome(forest, e, resOf(r), realEvalOpts(eo), lib.DefaultDeadline)
+		}
 		l.events[len(l.events)-1].T0 = &t0
 		var o any
 		if s != nil && s.opaque {
